@@ -30,6 +30,17 @@ void *memcpy(void *dst, const void *src, size_t n) {
 		((uint8_t *)dst)[i] = ((const uint8_t *)src)[i];
 	return (dst);
 }
+#elif defined(VF_DNS_MEMCPY_SLICE)
+/* contract form for the construction side (C15): exactly dst[0..n) is assigned and, observed at
+ * the ghost index vf_dns_k (contracts/dns.h part 2), holds the source bytes */
+extern size_t vf_dns_k;
+void *memcpy(void *dst, const void *src, size_t n)
+__CPROVER_requires(n == 0 || (__CPROVER_w_ok(dst, n) && __CPROVER_r_ok(src, n) &&
+    !__CPROVER_same_object(dst, src)))
+__CPROVER_assigns(n != 0: __CPROVER_object_upto(dst, n))
+__CPROVER_ensures(__CPROVER_return_value == dst)
+__CPROVER_ensures(vf_dns_k < n ==> ((const uint8_t *)dst)[vf_dns_k] == ((const uint8_t *)src)[vf_dns_k])
+;
 #elif !defined(VF_DNS_MEMCPY_BODY)
 /* contract form, for `"replace": ["memcpy"]` in --dfcc jobs */
 void *memcpy(void *dst, const void *src, size_t n)
